@@ -16,9 +16,9 @@ class Scheme(object):
 
 
 class GroupAdditivityScheme(Scheme):
-    def __init__(self, patterns=[], pretreatment_rules=[], remaps={},
-                 other_descriptors=[], smiles_based_descriptors=[],
-                 smarts_based_descriptors=[], include=[]):
+    def __init__(self, patterns=None, pretreatment_rules=None, remaps=None,
+                 other_descriptors=None, smiles_based_descriptors=None,
+                 smarts_based_descriptors=None, include=()):
         """Load group-additivity scheme from file-system `path` or builtin.
 
         Parameters
@@ -39,12 +39,18 @@ class GroupAdditivityScheme(Scheme):
             If `signature` is specified and does not match the signature of
             the loaded data.
         """
-        self.patterns = patterns
-        self.pretreatment_rules = pretreatment_rules
-        self.remaps = remaps
-        self.other_descriptors = other_descriptors
-        self.smiles_based_descriptors = smiles_based_descriptors
-        self.smarts_based_descriptors = smarts_based_descriptors
+        # (fresh containers per instance: the defaults must not be shared
+        # between schemes, 'include' below extends them in place)
+        self.patterns = [] if patterns is None else patterns
+        self.pretreatment_rules = ([] if pretreatment_rules is None
+                                   else pretreatment_rules)
+        self.remaps = {} if remaps is None else remaps
+        self.other_descriptors = ([] if other_descriptors is None
+                                  else other_descriptors)
+        self.smiles_based_descriptors = ([] if smiles_based_descriptors is None
+                                         else smiles_based_descriptors)
+        self.smarts_based_descriptors = ([] if smarts_based_descriptors is None
+                                         else smarts_based_descriptors)
         for scheme in include:
             if isinstance(scheme, GroupAdditivityScheme):
                 scheme_object = scheme
